@@ -103,7 +103,7 @@ def spec_trace(events, start=(False, ())):
 
 # ---- rendering --------------------------------------------------------------
 SHAPES = ['one', 'multi', 'compound', 'decorated', 'want', 'string', 'decoclass', 'decoclass1', 'decorated1', 'asyncdef',
-          'compound_comment', 'multi_comment', 'compound_comment_last', 'multi_blank', 'triple_blank', 'compound_blank']
+          'compound_comment', 'multi_comment', 'compound_comment_last', 'multi_blank', 'triple_blank', 'compound_blank', 'string_escape', 'string_escape2']
 
 
 # every spelling of the marker that the directive pattern accepts (it is matched case-insensitively)
@@ -147,6 +147,11 @@ def render_stmt(shape, k, dirs):
         return ['>>> @tr(%d)%s' % (k, c), '... async def h%d():' % k, '...     pass'], []
     if shape == 'want':
         return [">>> print('o%d', t(%d))%s" % (k, k, c)], ['o%d %d' % (k, k)]
+    if shape == 'string_escape':
+        # a double-quoted literal with a backslash escape, an apostrophe behind it and directive-looking text: still a string
+        return ['>>> s%d = ["tab\\there don\'t # xdoctest: +SKIP", t(%d)]%s' % (k, k, c)], []
+    if shape == 'string_escape2':
+        return ['>>> s%d = ["C:\\\\dir isn\'t # doctest: +SKIP, +REQUIRES(--never)", t(%d)]%s' % (k, k, c)], []
     if shape == 'string':
         # directive-looking text inside string literals is not a directive
         return [">>> s%d = ['# xdoctest: +SKIP', t(%d)]%s" % (k, k, c),
